@@ -21,6 +21,8 @@ fn main() {
         "C03" => checks::c03::run(&mut rep),
         "C04" => checks::c04::run(&mut rep),
         "C05" => checks::c05::run(&mut rep),
+        "C06" => checks::c06::run(&mut rep),
+        "C15" => checks::c15::run(&mut rep),
         _ => {
             eprintln!("unknown property id {id}");
             std::process::exit(2);
